@@ -422,11 +422,10 @@ func vfH_C09_header_codec() {
 	vfAssert("codec/spec-encoded-push-accepted", ret == 0)
 	vfAssert("codec/window-field-read", k.rmt_wnd == uint32(seg.wnd))
 	vfAssert("codec/ack-owed-with-echoed-timestamp", len(k.acklist) == 1 && vfConcreteBool(vfAnd(k.acklist[0].sn == 0, k.acklist[0].ts == seg.ts)))
+	vfAssert("codec/segment-delivered", k.rcv_queue.Len() == 1)
 	if k.rcv_queue.Len() == 1 {
 		s := vfRingAt(k.rcv_queue, 0)
 		vfAssert("codec/fragment-and-payload-delivered", vfAnd(s.frg == seg.frg, vfBytesEq(s.data, seg.data)))
-	} else {
-		vfAssert("codec/segment-delivered", false)
 	}
 }
 
